@@ -131,6 +131,33 @@ def run_apalache(ctx, module, cinit, init, inv, length, timeout=900, name=None):
     return res, out
 
 
+TLAPM = shutil.which("tlapm") or "/opt/veriftools/tlapm/bin/tlapm"
+
+
+def run_tlapm(ctx, module, subst=None, timeout=600, name=None):
+    """Have the TLA+ proof system check the proofs of a module. Returns (proved, failed, total) - (None, None, None) if it did not run.
+    Informative only: back-end time-outs under load make a failed obligation unreliable, so this never changes a verdict."""
+    d = ctx.sub("tlapm-" + (name or module.replace(".tla", "")))
+    for f in os.listdir(SPECS):
+        if f.endswith(".tla"):
+            shutil.copy(os.path.join(SPECS, f), d)
+    if subst:
+        src = open(os.path.join(d, module)).read()
+        assert subst[0] in src
+        open(os.path.join(d, module), "w").write(src.replace(subst[0], subst[1]))
+    t0 = time.time()
+    try:
+        p = subprocess.run([TLAPM, "--threads", "8", module], cwd=d, stdout=subprocess.PIPE, stderr=subprocess.STDOUT, text=True, timeout=timeout)
+        out = p.stdout
+    except (subprocess.TimeoutExpired, OSError) as e:
+        out = "not completed: %s" % e
+    m = re.search(r"All (\d+) obligations? proved", out)
+    f = re.search(r"(\d+)/(\d+) obligations? failed", out)
+    res = (int(m.group(1)), 0, int(m.group(1))) if m else (int(f.group(2)) - int(f.group(1)), int(f.group(1)), int(f.group(2))) if f else (None, None, None)
+    log("  TLAPS %-24s %s  %5.1fs" % (name or module, "all %d obligations proved" % res[0] if m else "%s of %s obligations failed" % (res[1], res[2]) if f else "did not run", time.time() - t0))
+    return res
+
+
 def model_check(ctx, module, cfg, expect_ok=True, **kw):
     """Design-level run. A violated invariant here is a defect of the
     specification (or of the intended design), not of the code: exit 2."""
